@@ -71,7 +71,7 @@ def families(tier, seed):
                                 run=(lambda sh=sh, params=params: harness.verify(gd.h_duality, sh, params)), label='per-shape'))
     ns = 4 if tier == 'quick' else 40
     for be in (None, 'autoref'):
-        for sh in (shapes.QUICK[2], shapes.QUICK[1]):
+        for sh in (shapes.QUICK[2], shapes.QUICK[1], shapes.QUICK[4]):
             for moore, plus_one in shapes.MODES:
                 for fname, nh, ng in (('solve_rabin_game', 2, 2), ('_cycle_inside', 1, 2), ('_attractor_inside', 1, 1)):
                     params = dict(moore=moore, plus_one=plus_one, n_holds=nh, n_goals=ng)
